@@ -13,12 +13,14 @@ def plan(tier):
     from vf.props.c12 import match_conds
     for fc in range(3):
         conds.append(Cond("vf.h.h_disp", "h_elig", case=fc, timeout=600, env={"VF_ORACLE": "C10"}, label=f"H10-disp[fleetcfg={fc}]", weight=20))
+    for o in (0, 1):
+        conds.append(Cond("vf.h.h_enter", "h_enter_pool", case=o, timeout=600, label=f"H10-enter-pooling[plan starts with r{o}]", weight=8))
     conds += match_conds("h_step_disp", "C10", tier, "H10-stepdisp", fcases=(3,) if tier == "quick" else (1, 2, 3))
     return {
         "conds": conds,
         "min_classes": 150,
-        "explanation": "C10: after any instruction / default transition the vehicle's activity target grants access to the vehicle's membership (5x5 grid of vehicle x target memberships incl. public, two fleets, both, private).",
-        "entry_points": ['step_simulation_ops.apply_instructions', 'step_simulation_ops.step_vehicle (VehicleState.update -> default_update -> move/charge/idle/pick_up_trip/drop_off_trip)'],
+        "explanation": "C10: after any instruction / default transition the vehicle's activity target grants access to the vehicle's membership (5x5 grid of vehicle x target memberships incl. public, two fleets, both, private; the second station s1 carries a different membership than s0). H10-enter-pooling: direct entry into DispatchPoolingTrip over two requests with a 5x5x5 membership grid: accepted only if every request of the plan admits the vehicle. H10-disp / H10-stepdisp: the built-in Dispatcher never pairs across fleets.",
+        "entry_points": ['step_simulation_ops.apply_instructions', 'entity_state_ops.transition_previous_to_next (DispatchPoolingTrip.enter)', 'Dispatcher.generate_instructions', 'step_simulation_ops.step_vehicle (VehicleState.update -> default_update -> move/charge/idle/pick_up_trip/drop_off_trip)'],
         "bounds": C.ARENA_BOUNDS + C.T_BOUNDS,
         "outside": C.T_OUTSIDE,
         "stubs": C.STUBS_COMMON + C.STUBS_UPD,
